@@ -73,7 +73,15 @@ def _project_files(pid: int, n: int):
     head = pool[:13]
     k = (pid * 3) % (len(head) - 2)
     rot = (head[:2] + head[2 + k :] + head[2 : 2 + k] if pid else head) + pool[13:]
-    sel = rot[:n]
+    sel = list(rot[:n])
+    # two of the given files are NOT to be linted (built-in excluded directory, top-level ignore
+    # list); both carry the duplicated block, so showing either to a cross-file rule - or
+    # withholding a real partner in its place - changes the findings
+    if n >= 4:
+        sel[n - 1] = ("build/dup_c.py", "import re\n\n\n" + _DUP.format(name="third_total"))
+    if n >= 6:
+        sel[n - 2] = ("skipme_dup_d.py", "import json\n\n\n" + _DUP.format(name="fourth_total"))
+        cfg = load.deep_merge(cfg, {"ignore": ["skipme_*"]})
     # the same constant in (nearly) every file: duplicate-constant messages list and truncate
     # their "Also found in" locations in the order the files reached the rule
     out = {}
@@ -196,7 +204,10 @@ def items(tier: str, seed: int):
 
 def _setup(pid, n):
     files, cfg = _project_files(pid, n)
-    root = project({**files, ".thailint.yaml": yaml_dump(cfg)})
+    # the configuration travels as .thailint.json for odd project ids: the repository-level
+    # ignore parser reads only .thailintignore / .thailint.yaml, the orchestrator must do the rest
+    carrier = {".thailint.json": __import__("json").dumps(cfg)} if pid % 2 else {".thailint.yaml": yaml_dump(cfg)}
+    root = project({**files, **carrier})
     paths = [root / p for p in files]
     return root, paths, cfg, list(files)
 
